@@ -6,6 +6,7 @@ CONSTANT One = 4
 CONSTANT Deltas <- DeltasFlt
 CONSTANT Factors <- FactorsS
 CONSTANT Divisors <- DivFlt
+CONSTANT Halves <- Empty
 CONSTANT MaxLen = 0
 INVARIANTS TypeOK ExactlyOnce NewValue
 PROPERTY ChangeNotifies
